@@ -24,6 +24,9 @@ static void fam_types()
 				const TypeSpec &ts = specs[ti];
 				int h = hashes[hi];
 				std::string cid = std::string("types:") + s.name + ":h" + str(h) + ":" + ts.prep + ":" + str(ts.type);
+				// quick tier: all 16 pairs for RSA and EdDSA; for the slow verifiers (DSA, ECDSA) one pair per object kind
+				if (!TH && (s.algo == TMCG_OPENPGP_PKALGO_DSA || s.algo == TMCG_OPENPGP_PKALGO_ECDSA) && !(ti == 0 || ti == 7 || ti == 10 || ti == 13))
+					continue;
 				if (!R->mine() || !R->selected(cid))
 					continue;
 				if (R->out_of_time())
@@ -142,7 +145,7 @@ static void fam_types()
 							R->viol("tamper/wrong-key-accepted", what + " verifies under another key", cid);
 					}
 			}
-	R->bound = "16 (prepare function, signature type) pairs x 4 algorithms x " + str(hashes.size()) + " hashes; all octets of the signature packet and of every hashed object flipped";
+	R->bound = std::string(TH ? "16 (prepare function, signature type) pairs x 4 algorithms x " : "16 pairs x {RSA,EdDSA} + 4 pairs x {DSA,ECDSA} x ") + str(hashes.size()) + " hashes; all octets of the signature packet and of every hashed object flipped";
 }
 
 // ------------------------------------------------------------------------------------------------ transferable public key
